@@ -7,7 +7,7 @@ CONFIG = {
     "properties_files": ["theories/Nfs40/PropertiesC18.v", "theories/Nfs40/PropertiesC19.v", "theories/Nfs40/PropertiesC20.v"],
     "required_theorems": [],
     "harnesses": [
-        {"cmd": "nfs40", "cases_quick": 240, "cases_thorough": 8000, "shards_quick": 12, "shards_thorough": 32},
+        {"cmd": "nfs40", "cases_quick": 240, "cases_thorough": 2400, "shards_quick": 12, "shards_thorough": 32},
     ],
     "violation_kinds": ["C18:", "C19:", "C20:"],
     "trusted_base": [
